@@ -39,6 +39,7 @@ def bounds(tier):
                 "named": "values 0..5, 2..5 items, k=2..3, dict with integer names: all exact algorithms and all cg configurations",
                 "separating": SEP_TEXT,
                 "spread9": "all 24 310 multisets of 9 items over (3,7,12,19,28,41,57,77,97), k=4: rnp",
+                "eight": "all 43 758 multisets of 8 items over 1..11 with rnp at k=4; all 12 870 multisets of 8 items over 4..12 with rnp at k=5",
                 "big": "values {0, 1, 2**24+1, 2**31+1, 2**32+3, 2**40+5}, 2..5 items, k=2..4: ckk/snp/rnp/dp (all objectives); cg 48 configurations k=2..3"}
     return {"dense": "values 0..7, 1..8 items, 1..6 bins",
             "wide": "values 1..10 (7 items), fibonacci/near-equal/powers-of-two alphabets (6..8 items), k=2..5",
@@ -49,6 +50,7 @@ def bounds(tier):
             "named": "values 0..5, 2..5 items, k=2..3, dict with integer names: all exact algorithms and all cg configurations",
             "separating": SEP_TEXT,
             "spread9": "all multisets of 9 items over (3,7,12,19,28,41,57,77,97) and over the primes 11..43, k=4: rnp and ckk",
+            "eight": "all 75 582 multisets of 8 items over 1..12 with rnp at k=4 and at k=5",
             "big": "values {0, 1, 2**24+1, 2**31+1, 2**32+3, 2**40+5}, 2..6 items, k=2..4: ckk/snp/rnp/dp (all objectives); cg 48 configurations k=2..3"}
 
 
@@ -98,6 +100,13 @@ def tasks(tier):
     if not q:
         for ch in scopes.chunk_multisets(PRIMES10, 9, 9, 60):
             ts.append(("spread9", ch, (4,), tier))
+    # eight items over 1..11 / 1..12: the smallest scope on which a top-level split of rnp's even case that is lost because
+    # another split has the same *sums* (different contents) costs optimality (4 of 43 758 at k=4), and on which rnp's nested
+    # 4-way level under the odd case (k=5) is not optimal on the pinned tree (3 of 75 582: known finding, listed by input)
+    for ch in scopes.chunk_multisets(range(1, 12 if q else 13), 8, 8, 150):
+        ts.append(("eight", ch, (4,), tier))
+    for ch in scopes.chunk_multisets(range(4 if q else 1, 13), 8, 8, 150):
+        ts.append(("eight", ch, (5,), tier))
     # named items whose names are integers larger than, and anti-correlated with, the values
     for ch in scopes.chunk_multisets(range(0, 6), 2, 5, 40):
         ts.append(("named-cg", ch, (2, 3), tier))
@@ -169,11 +178,11 @@ def run_task(task):
     kind = scope.split("-")[-1] if "-" in scope else scope
     if scope == "long-thin":
         return _long_thin(acc, chunk, tier)
-    if scope == "spread9":
+    if scope in ("spread9", "eight"):
         for ms in chunk:
             for k in ks:
                 acc.point(nontrivial=True)
-                for a in (("rnp",) if tier == "quick" else ("rnp", "ckk")):        # snp costs seconds per call at this size
+                for a in (("rnp",) if tier == "quick" or scope == "eight" else ("rnp", "ckk")):        # snp costs seconds per call at this size
                     _judge(acc, {"algo": a, "items": list(ms), "k": k, "out": "Sums", "kw": {}, "dp_oracle": True}, "MinimizeDifference")
         acc.sample({"scope": scope, "items": list(chunk[0]), "k": list(ks)})
         O.opt_partition_dp.cache_clear()
